@@ -17,6 +17,8 @@
 package config
 
 import (
+	"errors"
+
 	"gopkg.in/yaml.v2"
 )
 
@@ -83,6 +85,9 @@ func NewMapTableSchemaStore() (*MapTableSchemaStore, error) {
 	return &MapTableSchemaStore{schemas: make(map[string]*tableSchema)}, nil
 }
 
+// ErrEmptyConfigItem is returned for a configuration with an empty item in the list of schemas or of encrypted columns
+var ErrEmptyConfigItem = errors.New("empty item in the list of schemas or encrypted columns")
+
 // MapTableSchemaStoreFromConfig parse config and return MapTableSchemaStore with data from config
 func MapTableSchemaStoreFromConfig(config []byte, useMySQL bool) (*MapTableSchemaStore, error) {
 	storeConfig := &storeConfig{}
@@ -100,7 +105,13 @@ func MapTableSchemaStoreFromConfig(config []byte, useMySQL bool) (*MapTableSchem
 	var mask SettingMask
 	mapSchemas := make(map[string]*tableSchema, len(storeConfig.Schemas))
 	for _, schema := range storeConfig.Schemas {
+		if schema == nil {
+			return nil, ErrEmptyConfigItem
+		}
 		for _, setting := range schema.EncryptionColumnSettings {
+			if setting == nil {
+				return nil, ErrEmptyConfigItem
+			}
 			setting.applyDefaults(*storeConfig.Defaults)
 			if err := setting.Init(useMySQL); err != nil {
 				return nil, err
